@@ -55,7 +55,8 @@ def generate(rng, tier, idx):
             'tree': g['tree'], 'manifests': g['manifests'], 'muts': muts,
             'ops': [{'op': 'verify', 'sub': sub, 'last_mtime': lm,
                      'policy': rng.choice(['false', 'false', 'true', 'none', 'mixed', 'mixed']), 'slash': rng.random() < 0.3,
-                     'api': 'both' if rng.random() < 0.6 else 'lib'}]}
+                     'api': 'both' if rng.random() < 0.6 else 'lib',
+                     'multi': rng.choice([None, None, 'first', 'last'])}]}
 
 
 def policy_value(policy, key, path):
@@ -119,7 +120,13 @@ def execute(sc):
                 if real_sub and sub and not cli_discovers_root_top(w.root, sub):
                     real_sub = False
                 if op.get('api') == 'both' and lm is None and real_sub:
-                    cli = run_cli(['verify', '--keep-going'] + (['-x'] if mnt else []) + [os.path.join(w.root, sub) if sub else w.root])
+                    target = os.path.join(w.root, sub) if sub else w.root
+                    cli = run_cli(['verify', '--keep-going'] + (['-x'] if mnt else []) + [target])
+                    cli2 = None
+                    if op.get('multi') and not mnt:
+                        # the same request with a second, consistent tree named on the command line
+                        t0 = w.other_tree()
+                        cli2 = run_cli(['verify', '--keep-going'] + ([target, t0] if op['multi'] == 'first' else [t0, target]))
             results.append(r)
             for z in set(v.zones):
                 zones[z] = zones.get(z, 0) + 1
@@ -224,6 +231,14 @@ def execute(sc):
                         violations.append(viol('cli.keepgoing', '%s: CLI rc=%r with %d mismatch messages; model has %d offending paths %r' % (
                             what, cli['rc'], nerr, len(must), sorted(must)[:6]), sig='rc=%r' % cli['rc']))
                     counters['cli'] = counters.get('cli', 0) + 1
+                    if cli2 is not None and cli2['kind'] == 'ok':
+                        nerr2 = sum(1 for lv, msg in cli2['log'] if lv == 'ERROR' and msg.startswith('Manifest mismatch for '))
+                        if (cli2['rc'], nerr2) != (cli['rc'], nerr):
+                            violations.append(viol('cli.keepgoing', '%s: alone rc=%r with %d mismatch messages, with a consistent second tree on the command line (%s) rc=%r with %d' % (
+                                what, cli['rc'], nerr, op['multi'], cli2['rc'], nerr2), sig='multi-path'))
+                        counters['cli-multi-path'] = counters.get('cli-multi-path', 0) + 1
+                    elif cli2 is not None and cli2['kind'] != 'INTERNAL':
+                        violations.append(viol('cli.keepgoing', '%s: CLI with two trees raised %s:%s' % (what, cli2['kind'], cli2.get('name')), sig='multi-path-raised'))
         violations += internal_violations(results)
         violations += write_violations(seam, snap0, w.snapshot(with_mtime=False), 'verify --keep-going')
     counters['mutations_applied'] = applied
